@@ -43,6 +43,12 @@ CHECKS = {
         text="DependencyTools().can_loop_be_parallelised is called on every loop of a generated dependence family (subscripts i, i+-c, c*i, i/c, MOD, index arrays, loop-invariant and reversed subscripts, structure members, two writes to one array, nests, scalars written conditionally/unconditionally, stepped and negative loops, variables named like the analysis' internal d_<var> symbols), each call under an alarm (termination clause). For every True verdict the loop is unrolled K times from a symbolic pre-state by the fsym interpreter with its memory-event trace on; z3 decides whether two distinct iterations can touch the same location with at least one write, for all inputs; scalars are exempt only if two further queries show that every iteration writes them unconditionally before any read. Witnesses are replayed by re-executing with the witness inputs and a set-based Bernstein check.",
         note="Bounds: K=3 (quick) / 4 (thorough) consecutive iterations of the analysed loop; programs = enumerated G-D family (about 350); inputs, index-array contents, bounds = solver. Only soundness of True verdicts is asserted. Trusted: fparser2, z3, fsym.",
         ref="5/C08"),
+    "C09": dict(
+        level="model_checking", engine="fsym",
+        technique="SMT equivalence of the serial loop and the OpenMP loop executed under EVERY thread map and serialisation of K iterations with the emitted private/firstprivate clause semantics (one z3 query per schedule, all inputs symbolic)",
+        text="Real OMPParallelLoopTrans and OMPLoopTrans+OMPParallelTrans (no force) on every loop of the dependence family; FortranWriter lowers the directives and infers the data-sharing clauses, which are read back from the emitted text. The loop is executed symbolically under each of the 16 schedules of K=3 iterations (all set partitions of the iterations into threads x all serialisations that keep each thread's iterations in order): private variables are per-thread copies with arbitrary initial value, firstprivate copies start from the pre-region value, both persist across the iterations of a thread, everything else is one shared store. For each schedule z3 decides, for all inputs, that every shared variable ends equal to the serial run. The first violating schedule is replayed by emitting a sequential Fortran emulation of that schedule (identifier renaming in the real loop body) and running it and the serial program through gfortran.",
+        note="Bounds: K=3 iterations (trip <= 3 assumed; covers thread counts 1..3 and any static/dynamic/guided assignment of 3 iterations), iteration-atomic interleavings only; values of private/firstprivate scalars after the region excluded; reduction/lastprivate clauses unsupported (skipped). Trusted: fparser2, z3, fsym, the clause semantics of DESIGN Appendix B, gfortran for replay.",
+        ref="5/C09"),
     "C12": dict(
         level="other", engine="fsym",
         technique="SMT queries over the symbolically executed region's memory-event trace: satisfiability of 'this read sees the incoming value' (upward-exposed read) and 'this write happens' decides the required input/output sets, compared with the real get_in_out_parameters lists",
